@@ -144,6 +144,8 @@ int main(int argc, char** argv) {
                             if (skipped(g_idx)) { g_idx++; delete o; continue; }
                             set_case(g_idx, "C02:build", pname);
                             if (!st[a].apply(*o, ka) || !st[b].apply(*o, kb)) { delete o; continue; }
+                            // an IPv4 / TCP header has a 4-bit length field: more than 40 bytes of options is not a packet
+                            if ((st[a].cls == "IP" || st[a].cls == "TCP") && o->header_size() > 60) { R.count("pairs_beyond_wire_limits"); delete o; continue; }
                             PDU* top = wrap(o);
                             PDU* last = top; while (last->inner_pdu()) last = last->inner_pdu();
                             if (last->pdu_type() != PDU::RAW) last->inner_pdu(new RawPDU(pattern(3, 0x33)));
